@@ -240,6 +240,7 @@ let parse_top (s : string) : top * string =
     | "masg", _ -> TMoveAssign (nat 1, nat 2)
     | "set", _ -> TSetBytes (nat 1, bytes_of_hex (List.nth f 2))
     | "append", ["cat"; v] -> TAppend (nat 1, nat 2, bytes_of_hex v)
+    | "extract", ["set"; v] -> TSetBytes (nat 1, bytes_of_hex v)
     | "utf8ref", ["set"; v] -> arg := ",ref=ok"; TSetBytes (nat 1, bytes_of_hex v)
     | "fvlv", ["copymove"; v] -> arg := ",arg=" ^ v; TCopyMove (nat 1, nat 2)
     | "svlv", ["set"; v] -> arg := ",arg=" ^ v; TSetBytes (nat 1, bytes_of_hex v)
@@ -254,7 +255,23 @@ let parse_top (s : string) : top * string =
     | _ -> failwith ("drv_mem: bad string op " ^ s) in
   (t, !arg)
 
+(* `extract,o,<text>,F=<n>,M=set:<token>`: the first n allocations of the extraction are libstdc++'s (the token's
+   std::basic_string growing: an oracle); a fault at one of them has the same visible outcome as a fault at the library's
+   own first allocation, a fault at number k >= n is the library's allocation number k - n *)
+let adjust_extract_fault (a : string list) : string list =
+  match parse_fail a with
+  | None -> a
+  | Some (k, step) ->
+      let ops = split_on ';' (List.nth a 1) in
+      (match List.nth_opt ops step with
+       | Some r when String.length r > 8 && String.sub r 0 8 = "extract," ->
+           let f = List.fold_left (fun acc x -> if String.length x > 2 && String.sub x 0 2 = "F=" then int_of_string (String.sub x 2 (String.length x - 2)) else acc) 0 (split_on ',' r) in
+           let k' = if k >= f then k - f else 0 in
+           List.map (fun x -> if String.length x > 7 && String.sub x 0 7 = "failat=" then Printf.sprintf "failat=%d@%d" k' step else x) a
+       | _ -> a)
+
 let str_case a =
+  let a = adjust_extract_fault a in
   let pool = int_of_string (List.nth a 0) in
   let parsed = List.map parse_top (split_on ';' (List.nth a 1)) in
   let ops = List.map fst parsed and args = List.map snd parsed in
